@@ -14,6 +14,7 @@ mod c08;
 mod c09_15;
 mod dml;
 mod hist;
+mod c16;
 mod c21;
 mod txn;
 mod c32;
@@ -42,6 +43,7 @@ macro_rules! dispatch {
             "C32" => $f(c32::C32, $($extra),*),
             "C33" => $f(c33::C33, $($extra),*),
             "C34" => $f(c34::C34, $($extra),*),
+            "C16" => $f(c16::C16, $($extra),*),
             "C21" => $f(c21::C21, $($extra),*),
             other => {
                 eprintln!("unknown property id {}", other);
@@ -70,7 +72,17 @@ fn main() {
         // dev helper: run ';'-separated statements from stdin against a fresh database
         let mut txt = String::new();
         std::io::Read::read_to_string(&mut std::io::stdin(), &mut txt).unwrap();
-        let mut db = vibesql_storage::Database::new();
+        let mut db = if std::env::var("VERIF_SQL_SPILL").is_ok() {
+            // dev aid for C16: memory budget 0 + SpillToDisk in a scratch directory
+            let mut c = vibesql_storage::DatabaseConfig::server_default();
+            c.memory_budget = 0;
+            c.spill_policy = vibesql_storage::database::SpillPolicy::SpillToDisk;
+            let dir = std::path::PathBuf::from(format!("/verif/target/tmp/sqlspill-{}", std::process::id()));
+            std::fs::create_dir_all(&dir).unwrap();
+            vibesql_storage::Database::with_path_and_config(dir, c)
+        } else {
+            vibesql_storage::Database::new()
+        };
         vcore::runner::install_panic_hook();
         for stmt in txt.split(";\n") {
             let stmt = stmt.trim();
